@@ -1187,16 +1187,7 @@ Proof.
     replace (Z.to_nat wb + (p - Z.to_nat wb)) with p by lia. reflexivity.
 Qed.
 
-(** ** the pattern string and its complement (finite checks by computation) *)
-Lemma comp_table_consistent : comp_table_ok = true.
-Proof. vm_compute. reflexivity. Qed.
-
-Lemma comp_string_upto_6 : forall s, In s (strings_upto 6) -> hash_after_position 0 s = true -> comp_string_ok s = true.
-Proof.
-  assert (H : forallb (fun s => implb (hash_after_position 0 s) (comp_string_ok s)) (strings_upto 6) = true)
-    by (vm_compute; reflexivity).
-  intros s Hin Hh. rewrite forallb_forall in H. specialize (H s Hin). rewrite Hh in H. exact H.
-Qed.
+(** ** the pattern string and its complement: TableProofs.v (table consistency, regenerated) and CompString.v (unbounded) *)
 
 Lemma revcomp_automaton pat k w q d :
   1 <= List.length pat -> List.length pat <= 63 ->
